@@ -107,6 +107,7 @@ def run(repo, chk):
                'Tracker.add', 'add must start tracking from the current value', TRACKER)
 
     _tracker(repo, chk)
+    _bookkeeping(repo, chk)
     # a guarded index must not be re-read after its check (shared with C01.R1: pending operands are protected)
     if chk.__class__.__name__ == 'Check':
         chk.rule('C04.A9', 'checked values are the used values: an index / operand is not re-read from a mutable location after its '
@@ -217,6 +218,51 @@ def run(repo, chk):
     chk.expect(src(sect).count('_store_const') == 4, 'C04.A7', 'Section.CONST', 'all four store slots of the const section must be _store_const', 'hidc/codegen/asm.py')
     chk.not_decided = ['a quantitative worst-case stack bound for an arbitrary program',
                        'reads of uninitialised string elements (excluded by the property)']
+
+
+def _bookkeeping(repo, chk, rule='C04.A1'):
+    """StackPoint / Bubble arithmetic, interpreted over a small grid (they are pure value classes)."""
+    import itertools
+    from ..consteval import Interp
+    it = Interp(repo)
+    gen = it.load(GEN)
+    SP, Bu = gen.get('StackPoint'), gen.get('Bubble')
+    if SP is None or Bu is None:
+        raise AnalysisError('StackPoint / Bubble not found')
+    grid = [(0, 0, 0), (2, 0, 0), (5, 1, 0), (5, 1, 4), (9, 2, 7)]
+    bad = None
+    for a in grid:
+        p = SP(*a)
+        if (p.offset, p.array_num, p.static_array_size) != a or p.static_size != a[0] + a[2] or bool(p) != any(a):
+            bad = f'StackPoint{a}: fields {(p.offset, p.array_num, p.static_array_size)} static_size {p.static_size} bool {bool(p)}'
+        for d in grid:
+            q = p.add(offset=d[0], array_num=d[1], static_array_size=d[2])
+            if (q.offset, q.array_num, q.static_array_size) != (a[0] + d[0], a[1] + d[1], a[2] + d[2]):
+                bad = f'StackPoint{a}.add{d} = {(q.offset, q.array_num, q.static_array_size)}'
+    chk.expect(bad is None, rule, 'StackPoint arithmetic', bad or 'field-wise sums; static_size = offset + static_array_size', GEN)
+    bad = None
+    pts = [SP(*a) for a in grid]
+    for i, j in itertools.combinations(range(len(pts)), 2):
+        b = Bu(pts[i], pts[j])
+        try:
+            fs, sa, al = b.frame_size, b.static_array_size, b.array_allocations
+        except AssertionError:
+            continue
+        want = (grid[j][0] - grid[i][0], grid[j][2] - grid[i][2], grid[j][1] - grid[i][1])
+        if (fs, sa, al) != want or b.vacuous or b.has_array != (al > 0 or sa > 0):
+            bad = f'Bubble({grid[i]}, {grid[j]}): frame_size/static/allocations {(fs, sa, al)} expected {want}'
+        for k in range(len(pts)):
+            if k > j:
+                c = b + Bu(pts[j], pts[k])
+                if c.prev != pts[i] or c.cur != pts[k]:
+                    bad = 'adjacent bubbles must merge to (first.prev, second.cur)'
+        try:
+            b + Bu(pts[i], pts[j])
+            if pts[i] != pts[j]:
+                bad = 'non-adjacent bubbles merged'
+        except ValueError:
+            pass
+    chk.expect(Bu(pts[1], pts[1]).vacuous and bad is None, rule, 'Bubble arithmetic', bad or 'differences of the two stack points; + only for adjacent bubbles', GEN)
 
 
 def _tracker(repo, chk):
